@@ -62,7 +62,8 @@ ASSUMPTIONS = ['scalar overloads of Obs / CObs used by the reference on single e
                'parity given as numpy integer is an open cell (the arithmetic rejects numpy integers)']
 BUDGET = {'quick': 45, 'thorough': 540}
 
-RTOL = 1e-10
+EXACT_MAPS = ('roll', 'reverse', 'thin', 'item', 'Hankel')
+RTOL = 2e-13      # the reference and the library do the same few floating-point operations: a few ulp times the natural scale
 PE = None
 CTX = None
 
@@ -331,16 +332,22 @@ def same_scalar(ctx, got, exp, mech, what='', vs=0.0, ds=0.0, rv=True, rtol=RTOL
         sc = max(float(np.max(np.abs(gd))) if len(gd) else 0.0, float(np.max(np.abs(ed))) if len(ed) else 0.0, ds)
         ok &= ctx.close(gd, ed, mech + ':fluctuations', what + ' chain ' + c, rtol=rtol, scale=sc, atol=1e-300)
         if rv:
+            ctx.count('judged-secondary:replica-mean')
             ok &= ctx.close(gr, er, mech + ':replica-mean', what + ' chain ' + c, rtol=rtol, scale=max(abs(gr), abs(er), vsc), atol=1e-300)
-    gc = {n: v for n, v in g['cov'].items() if np.any(v[1] != 0)}
-    ec = {n: v for n, v in e['cov'].items() if np.any(v[1] != 0)}
-    if sorted(gc) != sorted(ec):
-        ctx.ev()
-        ctx.violation(mech + ':covariance-names', {'what': what, 'got': sorted(gc), 'exp': sorted(ec)})
-        return False
-    for n in sorted(ec):
-        sc = max(float(np.max(np.abs(gc[n][1]))), float(np.max(np.abs(ec[n][1]))))
-        ok &= ctx.close(gc[n][1], ec[n][1], mech + ':covariance-gradient', what + ' cov ' + n, rtol=rtol, scale=sc, atol=1e-300)
+    # covariance inputs: gradients compared over the union of names (an input that is absent on one side has gradient 0 there:
+    # a contribution that cancels exactly on one side and to rounding on the other is a rounding difference, not another name)
+    for n in sorted(set(g['cov']) | set(e['cov'])):
+        gg = g['cov'][n][1] if n in g['cov'] else None
+        eg = e['cov'][n][1] if n in e['cov'] else None
+        if gg is None:
+            gg = np.zeros_like(eg)
+        if eg is None:
+            eg = np.zeros_like(gg)
+        if not (np.any(gg != 0) or np.any(eg != 0)):
+            continue
+        ctx.count('judged-secondary:covariance-gradient')
+        sc = max(float(np.max(np.abs(gg))), float(np.max(np.abs(eg))), ds)
+        ok &= ctx.close(gg, eg, mech + ':covariance-gradient', what + ' cov ' + n, rtol=rtol, scale=sc, atol=1e-300)
     ok &= ctx.equal(bool(g['rew']), bool(e['rew']), mech + ':reweighted-flag', what)
     return bool(ok)
 
@@ -371,7 +378,9 @@ def has_undefined(*Ms):
     return any(m is None for M in Ms for m in M)
 
 
-def judge_corr(ctx, got, exp, label, plabel=None, hint=(0.0, 0.0), hints=None, rv=True, identical_to=None, rtol=RTOL):
+def judge_corr(ctx, got, exp, label, plabel=None, hint=(0.0, 0.0), hints=None, rv=True, identical_to=None, rtol=RTOL, exact=None):
+    if exact is None:
+        exact = (plabel or label) in EXACT_MAPS
     """compare a library result with the reference model exp.  Tags:
          result-type:<label>, shape:<plabel>:T|N|entry,
          pattern:<plabel>:nan-entry-kept | defined-where-expected-undefined | undefined-where-expected-defined,
@@ -413,6 +422,16 @@ def judge_corr(ctx, got, exp, label, plabel=None, hint=(0.0, 0.0), hints=None, r
             ctx.violation('shape:%s:entry' % plabel, {'call': label, 't': t, 'got': [len(g)] + [len(r) for r in g], 'exp': len(e)})
             continue
         vs, ds = hints[t] if hints is not None else hint
+        if exact:
+            # a pure index map moves entries: bit-identical observables (digest of value, fluctuations, lists, replica means, flags)
+            ctx.count('judged-exact:' + plabel)
+            for i in range(len(e)):
+                for j in range(len(e)):
+                    ctx.ev()
+                    if g[i][j] is not e[i][j] and any_digest(g[i][j]) != any_digest(e[i][j]):
+                        ctx.violation('value:%s:moved-entry-not-identical' % label, {'t': t, 'i': i, 'j': j, 'T': T})
+            compared += 1
+            continue
         for i in range(len(e)):
             for j in range(len(e)):
                 same_scalar(ctx, g[i][j], e[i][j], 'value:' + label, 't=%d [%d,%d] of T=%d' % (t, i, j, T), vs, ds, rv, rtol)
@@ -447,6 +466,8 @@ class Layout:
             self.idls.append(gen.rand_idl(rng, n, kind, step=step, as_type=str(rng.choice(['list', 'native']))))
         self.step = step
         self.common = [rng.normal(size=len(i)) for i in self.idls]
+        # a covariance input shared by all observables of the layout (secondary output: its gradient), checklist 22
+        self.cov = PE.cov_Obs(0.0, float(rng.uniform(0.5, 2.0)) ** 2, 'cv%s%d' % (self.ens, int(rng.integers(0, 10 ** 6)))) if rng.random() < 0.1 else None     # one name = one covariance matrix
 
     def shifted_twin(self, rng):
         """same ensemble, same replica names, equally many configurations with the same spacing - but other configuration
@@ -465,7 +486,10 @@ class Layout:
     def obs(self, rng, mean, rel=0.03):
         sigma = rel * abs(mean) + 1e-3
         samples = [mean + sigma * (0.6 * c + 0.8 * rng.normal(size=len(c))) for c in self.common]
-        return PE.Obs(samples, self.names, idl=[copy.copy(i) for i in self.idls])
+        o = PE.Obs(samples, self.names, idl=[copy.copy(i) for i in self.idls])
+        if self.cov is not None:
+            o = o + float(rng.normal()) * sigma * self.cov
+        return o
 
 
 def profile(rng, T, kind):
@@ -483,10 +507,20 @@ def profile(rng, T, kind):
     return [float(x) for x in v]
 
 
+FAR_OUT = {'tanh': (15.0, 25.0), 'exp': (20.0, 40.0), 'cosh': (20.0, 30.0), 'sinh': (20.0, 30.0), 'arctan': (1e5, 1e7), 'arcsinh': (1e6, 1e9),
+           'log': (1e8, 1e12), 'sqrt': (1e8, 1e12), 'arccosh': (1e6, 1e9), 'abs': (1e6, 1e9)}
+
+
 def values_for(rng, T, fname):
     (lo, hi), outside = FUNCS[fname]
     vals = []
     for _ in range(T):
+        if fname in FAR_OUT and rng.random() < 0.12:
+            # far out in the domain: saturated tanh, large exp / cosh, huge arguments (checklist 21)
+            a, b = FAR_OUT[fname]
+            sgn = -1.0 if (fname in ('tanh', 'exp', 'sinh', 'arctan', 'arcsinh', 'abs') and rng.random() < 0.5) else 1.0
+            vals.append(sgn * float(rng.uniform(a, b)))
+            continue
         if outside and rng.random() < 0.3:
             a, b = outside[int(rng.integers(0, len(outside)))]
         else:
@@ -533,6 +567,9 @@ def make_corr(ctx, rng, T, N=1, content='real', mask='none', layout=None, values
             sc = float(rng.choice(SCALES))
             values = [v * sc for v in values]
             ctx.count('scaled_correlators')
+        elif scale and rng.random() < 0.1:
+            values[int(rng.integers(0, T))] *= 1e-10           # tiny in ONE timeslice only (checklist 21)
+            ctx.count('correlators_with_one_tiny_timeslice')
     defined, padding = none_mask(rng, T, mask)
     rew = decorate and rng.random() < 0.12
 
@@ -1395,8 +1432,9 @@ def hard_same_operand(ctx, rng, mask):
         for parity in (1, -1):
             judged_call(ctx, rng, 'T_symmetry(same object)', 'T_symmetry', lambda parity=parity: A.T_symmetry(A, parity), [A],
                         refc.T_symmetry(MA, MA, parity), hint=hint_global(MA), context='undefined-slice' if has_undefined(MA) else 'operands-defined')
-        judged_call(ctx, rng, 'correlate(same object)', 'correlate', lambda: A.correlate(A), [A],
-                    refc.unary(lambda x: PE.correlate(x, x), MA), hint=hint_global(MA))
+        if lay.cov is None:     # correlate refuses observables with covariance inputs (documented, judged by C05)
+          judged_call(ctx, rng, 'correlate(same object)', 'correlate', lambda: A.correlate(A), [A],
+                      refc.unary(lambda x: PE.correlate(x, x), MA), hint=hint_global(MA))
     ctx.cell('hard', 'same-operand', 'N=%d' % N, mask)
 
 
